@@ -294,7 +294,8 @@ static void check_pair(const EList &bl, Build bh, const EList &ol, Build oh) {
     for (auto &x : bl) mb += x.sec == d.first && x.key == d.second;
     for (auto &x : ol) mo += x.sec == d.first && x.key == d.second;
     for (auto &k : rkeys[d.first]) mr += k == d.second;
-    if (mb <= 1 && mo <= 1)
+    // (repeated definitions inside the override never multiply a key: its first definition is the one that counts)
+    if (mb <= 1)
       VF_CHECK(mr == 1, "duplicate-key", ctx << ": (" << esc(d.first) << "," << esc(d.second) << ") listed " << mr << " times" << shown);
     else
       VF_CHECK(mr >= 1 && mr <= mb + mo, "duplicate-key", ctx << ": (" << esc(d.first) << "," << esc(d.second) << ") listed " << mr << " times, inputs " << mb << "+" << mo << shown);
@@ -510,7 +511,7 @@ static int empties() {
 // ------------------------------------------------------------------ random larger pairs
 static EList gen_list(Src &s, const char *pfx) {
   static const std::vector<std::string> secs = {"", "A", "B", "Sec C", "D", "E"};
-  static const std::vector<std::string> keys = {"k1", "k2", "k3", "k4", "k5", "k6"};
+  static const std::vector<std::string> keys = {"k1", "k2", "k3", "k4", "k5", "k6", "Ab", "BA"};  // (Ab / BA: same djb2 hash)
   EList l;
   size_t style = s.weighted({50, 30, 20});  // 0 arbitrary interleaving, 1 grouped (file-like), 2 few sections
   std::string cur;
@@ -526,7 +527,7 @@ static EList gen_list(Src &s, const char *pfx) {
       e.sec = secs[s.below(3)];
     else
       e.sec = secs[s.below(6)];
-    e.key = keys[s.below(6)];
+    e.key = keys[s.below(8)];
     size_t vk = s.weighted({70, 10, 20});
     e.val = std::string(pfx) + std::to_string(n);
     if (vk == 1) e.val = "";
